@@ -679,6 +679,11 @@ func (p Patch) test(doc *container, op Operation) error {
 			self.which = eAry
 		}
 
+		// A test without a value compares against null; the document never is.
+		if op.value() == nil {
+			return fmt.Errorf("testing value %s failed: %w", path, ErrTestFailed)
+		}
+
 		if self.equal(op.value()) {
 			return nil
 		}
